@@ -442,22 +442,24 @@ pub fn c09(case: &Case, obs: &mut Obs, prec: Prec) -> Result<(), Failure> {
         if ctx.trivial_path && changes_box_test {
             // the base run took the shortcut (rings as given), the extended one the sweep: rings agree for operands
             // whose rings do not touch each other, regions always
-            if canonical(a) && canonical(b) && no_self_contact_pair(&ctx) {
+            if !case.selfx && canonical(a) && canonical(b) && no_self_contact_pair(&ctx) {
                 if ring_set(&r2) != ring_set(&want) {
                     return Err(Failure::new("shortcut-vs-sweep", format!("{}: {} expected the rings of {}", what, mp_to_text(&r2), mp_to_text(&want))));
                 }
             } else {
                 region_eq(case, prec, &r2, &want, &what)?;
             }
+        } else if case.selfx {
+            // self-crossing rings: compare as regions (the decomposition into simple rings is the sweep's choice)
+            region_eq(case, prec, &r2, &want, &what)?;
         } else if ring_set(&r2) != ring_set(&want) {
             return Err(Failure::new("far-part", format!("{}: {} expected the rings of {}", what, mp_to_text(&r2), mp_to_text(&want))));
         }
     }
-    // far parts on the same side of both operands (always to the right: the sweep of intersection / difference cannot
-    // stop early before them; and in one more direction chosen by the bits): every bound derived from the operands'
+    // far parts on the same side of both operands (to the right: the sweep of intersection / difference cannot
+    // stop early before them; and above, left, below): every bound derived from the operands'
     // boxes moves, the near geometry must not notice
-    let second = [0u64, 2, 3][((case.bits >> 9) % 3) as usize];
-    for both_dir in [1u64, second] {
+    for both_dir in [1u64, 2, 0, 3] {
         let (pa, pb) = match both_dir {
             0 => (rect_poly_p(prec, cx - far - unit, cy + 2.0 * unit, cx - far, cy + 3.0 * unit), rect_poly_p(prec, cx - far - unit, cy - 3.0 * unit, cx - far, cy - 2.0 * unit)),
             1 => (rect_poly_p(prec, cx + far, cy + 2.0 * unit, cx + far + unit, cy + 3.0 * unit), rect_poly_p(prec, cx + far, cy - 3.0 * unit, cx + far + unit, cy - 2.0 * unit)),
@@ -484,7 +486,9 @@ pub fn c09(case: &Case, obs: &mut Obs, prec: Prec) -> Result<(), Failure> {
                 }
             }
             let what = format!("op={}: far parts on the same side ({}) of both operands", op_name(op), ["left", "right", "above", "below"][both_dir as usize]);
-            if ctx.trivial_path {
+            if case.selfx {
+                region_eq(case, prec, &r3, &want, &what)?;
+            } else if ctx.trivial_path {
                 if canonical(a) && canonical(b) {
                     if ring_set(&r3) != ring_set(&want) {
                         return Err(Failure::new("shortcut-vs-sweep", format!("{}: {} expected the rings of {}", what, mp_to_text(&r3), mp_to_text(&want))));
